@@ -389,8 +389,30 @@ def gen_scalars(r, n):
     f = r.choice(['Range', 'Size', 'Element', 'Subscript', 'Sort', 'ArrayConcat', 'Concat', 'Join',
                   'Split', 'ToString', 'ToInt64', 'Least', 'Greatest', 'Plus', 'Minus', 'Times',
                   'SizeRange', 'InFilter', 'Cmp', 'Empty', 'Empty', 'Boundary', 'Boundary', 'Compose', 'Nested', 'Nested',
-                  'Strings', 'Strings', 'AggOfAgg', 'Member', 'Member'])
-    if f == 'Member':
+                  'Strings', 'Strings', 'AggOfAgg', 'Member', 'Member', 'BigInt'])
+    if f == 'BigInt':
+      # 64-bit integers that a double cannot hold exactly
+      big = r.choice([2 ** 53 + 1, 2 ** 53 + 3, 2 ** 62 + 1, 2 ** 63 - 1, -(2 ** 53) - 1, 10 ** 17 + 7])
+      other = big - r.choice([1, 2]) if big > 0 else big + 1
+      which = r.choice(['minus', 'cmp', 'tostring', 'roundtrip', 'greatest', 'least', 'plus0'])
+      if which == 'minus':
+        cells.append(['Minus', '%s - %s' % (lit(big), lit(other)), big - other])
+      elif which == 'cmp':
+        op = r.choice(['<', '<=', '==', '!=', '>', '>='])
+        truth = {'<': big < other, '<=': big <= other, '==': big == other, '!=': big != other,
+                 '>': big > other, '>=': big >= other}[op]
+        cells.append(['Cmp', ('List', 'x', 'x in [1], %s %s %s' % (lit(big), op, lit(other))), [1] if truth else []])
+      elif which == 'tostring':
+        cells.append(['ToString', 'ToString(%s)' % lit(big), str(big)])
+      elif which == 'roundtrip':
+        cells.append(['ToInt64', ('List', 'x', 'x in [1], ToInt64(%s) == %s' % (lit(str(big)), lit(big))), [1]])
+      elif which == 'greatest':
+        cells.append(['Greatest', 'Greatest(%s, %s)' % (lit(other), lit(big)), max(big, other)])
+      elif which == 'least':
+        cells.append(['Least', 'Least(%s, %s)' % (lit(big), lit(other)), min(big, other)])
+      else:
+        cells.append(['Plus', '%s + 0' % lit(big), big])
+    elif f == 'Member':
       # `item in list` as a condition, the list coming from a literal or from another built-in;
       # strings include non-ASCII characters and a backslash
       kind = r.choice(['str', 'str', 'int'])
